@@ -262,7 +262,7 @@ func pickAdv(r *rand.Rand, st *stackCfg) adv {
 	if a.Hdr == "none" {
 		a.Mask = 0
 	}
-	switch r.Intn(14) {
+	switch r.Intn(12) {
 	case 0:
 		a.Pre = 103
 	case 1:
@@ -587,6 +587,8 @@ func (rn *runner) headerVerdict(idx int, o *obs, w *wresp, h string, want []stri
 		kind = "wrong-value"
 		if o.Adv != nil && o.Hit && containsStr(o.Adv.sent(h), vals[0]) {
 			kind = "upstream-value-wins"
+		} else if _, ov := o.Upstream.override(h); ov && o.Stack.learnedOK[h] && vals[0] == o.Stack.learned[h] {
+			kind = "override-not-honoured"
 		}
 	case len(vals) > 1:
 		kind = "duplicated"
@@ -611,8 +613,8 @@ func (rn *runner) report(idx int, o *obs, w *wresp, label, kind string, vals, wa
 	case kind == "missing" && len(o.Interim) > 0 && o.Hit:
 		// whatever the final answer was (upstream content or the proxy's own 502), it is the answer
 		// that followed an interim response of the upstream
-		via, class = " via=after-upstream-1xx", "after-upstream-1xx"
-	case kind == "missing" || !o.Hit || o.Adv == nil:
+		class = "after-upstream-1xx"
+	case (kind != "upstream-value-wins" && kind != "duplicated") || !o.Hit || o.Adv == nil:
 	case o.Adv.Hdr == "trailer":
 		via = " via=upstream-trailer"
 	default:
@@ -698,17 +700,51 @@ func (rn *runner) learn(st *stackCfg) {
 	if st.Kind == "yaml" {
 		ref = st.up("plain")
 	}
-	res := do(st.ps.Addr, wreq{Host: ref.Hosts[0], Target: "/robots.txt", Headers: [][2]string{{"X-Forwarded-Proto", "https"}}})
-	if res.Final == nil {
-		rn.rep.Inconclusive("no reference response from the proxy")
-		return
+	// Reference answers of three different branches: a value is "the proxy's own" when every reference
+	// that carries the header agrees on it; a reference that lacks it is a witness by itself.
+	https := [][2]string{{"X-Forwarded-Proto", "https"}}
+	refs := []struct {
+		class string
+		rq    wreq
+	}{
+		{"static", wreq{Host: ref.Hosts[0], Target: "/robots.txt", Headers: https}},
+		{"redirect-sign-in", wreq{Host: ref.Hosts[0], Target: "/reference", Headers: https}},
+		{"https-301", wreq{Host: ref.Hosts[0], Target: "/reference"}},
 	}
-	o := &obs{Stack: st, Upstream: ref, Scenario: "reference", Method: "GET", Host: ref.Hosts[0], Target: "/robots.txt", XFP: "https", XFPClass: "https", Status: res.Final.Status, Class: "static"}
-	for _, h := range protected {
-		if h == hSTS && !st.Secure {
+	for _, rf := range refs {
+		if rf.class == "https-301" && !st.Secure {
 			continue
 		}
-		if _, ok := ref.override(h); ok {
+		res := do(st.ps.Addr, rf.rq)
+		if res.Final == nil {
+			rn.rep.Inconclusive("no reference response from the proxy")
+			return
+		}
+		o := &obs{Stack: st, Upstream: ref, Scenario: "reference", Method: "GET", Host: ref.Hosts[0], Target: rf.rq.Target, Status: res.Final.Status, Class: rf.class}
+		for _, h := range protected {
+			if h == hSTS && !st.Secure {
+				continue
+			}
+			if _, ok := ref.override(h); ok {
+				continue
+			}
+			v := res.Final.values(h)
+			switch {
+			case len(v) == 0 || v[0] == "":
+				rn.rep.Violate(rn.stream, -1, fmt.Sprintf("proxy: %s missing chain=n/a class=%s", h, rf.class), "a reference response ("+rf.rq.Target+") does not carry "+h, o)
+			case !st.learnedOK[h]:
+				st.learned[h], st.learnedOK[h] = v[0], true
+				learnedMu.Lock()
+				learnedFallback[h] = v[0]
+				learnedMu.Unlock()
+				rn.rep.SetAdd("learned_"+h, v[0])
+			case st.learned[h] != v[0]:
+				rn.rep.Violate(rn.stream, -1, fmt.Sprintf("proxy: %s differs between reference responses", h), fmt.Sprintf("%q on /robots.txt, %q on %s", st.learned[h], v[0], rf.class), o)
+			}
+		}
+	}
+	for _, h := range protected {
+		if _, ok := ref.override(h); ok && !st.learnedOK[h] {
 			// the only upstream of this assembly overrides h: fall back on what an earlier stack of this
 			// run (same proxy build) taught us
 			learnedMu.Lock()
@@ -716,18 +752,7 @@ func (rn *runner) learn(st *stackCfg) {
 				st.learned[h], st.learnedOK[h] = v, true
 			}
 			learnedMu.Unlock()
-			continue
 		}
-		v := res.Final.values(h)
-		if len(v) == 0 || v[0] == "" {
-			rn.rep.Violate(rn.stream, -1, fmt.Sprintf("proxy: %s missing chain=n/a class=static", h), "the reference response (/robots.txt) does not carry "+h, o)
-			continue
-		}
-		st.learned[h], st.learnedOK[h] = v[0], true
-		learnedMu.Lock()
-		learnedFallback[h] = v[0]
-		learnedMu.Unlock()
-		rn.rep.SetAdd("learned_"+h, v[0])
 	}
 }
 
